@@ -4,7 +4,7 @@ func init() {
 	props["C16"] = &propDef{
 		info: PropInfo{
 			Bounds: []string{
-				"operations: zoom change (out and in), merge, N-layer neighbourhood, quadkey->ID conversion, tile conversion, extended overlap; two symbolic input IDs (tiles) per call at zooms (3,3), (25,26), of equal precision and (zoom change, merge, overlap) of mixed precision",
+				"operations: zoom change (out and in), merge, N-layer neighbourhood, quadkey->ID conversion (equal and mixed key zooms), tile conversion, extended overlap; two symbolic input IDs (tiles) per call at zooms (3,3), (25,26), of equal precision and (zoom change, merge, overlap) of mixed precision",
 				"map iteration: every range over a map of <= 4 keys takes every order (forked by the executor; contents stay symbolic and are decided by the solver); more than 4 keys in one map = unsupported = inconclusive",
 				"permutation = swap of the two inputs, duplication = first element repeated at the end; inputs handed over in slices with spare capacity under the frame check",
 			},
@@ -17,7 +17,7 @@ func init() {
 				zs = append(zs, [2]int{25, 26})
 			}
 			for _, z := range zs {
-				for op := 0; op <= 9; op++ {
+				for op := 0; op <= 10; op++ {
 					c := cs("op", op, "h", z[0], "v", z[1], "mix", 0)
 					if op == 5 { // merge, mixed precision in the list
 						c = cs("op", 2, "h", z[0], "v", z[1], "mix", 1)
@@ -33,6 +33,9 @@ func init() {
 					}
 					if op == 9 { // zoom-in of a mixed-precision (possibly nested) list to the finer zoom
 						c = cs("op", 9, "h", z[0], "v", z[1], "mix", 1)
+					}
+					if op == 10 { // quadkeys of mixed zooms in one list
+						c = cs("op", 10, "h", z[0], "v", z[1], "mix", 1)
 					}
 					c["orders"] = 1
 					if op == 9 {
